@@ -302,6 +302,10 @@ def run_query(sc, q, args):
         if st == 'FAILURE' and desc.startswith('same object violation'):
             # relational comparison of pointers into different objects: standard-level UB no sanitizer can confirm; informational
             res.setdefault('unconfirmable_ub', []).append('%s line %s: %s' % (r.get('sourceLocation', {}).get('function'), r.get('sourceLocation', {}).get('line'), desc[:120]))
+        elif st == 'FAILURE' and 'on signed to unsigned type conversion' in desc:
+            # --conversion-check also flags the conversion of a negative value to an unsigned type, which C defines (6.3.1.3p2: modulo 2^N) and
+            # which the library uses on purpose ((unsigned char)c); it is no obligation of any property: informational only
+            res.setdefault('defined_conversions', []).append('%s line %s' % (r.get('sourceLocation', {}).get('function'), r.get('sourceLocation', {}).get('line')))
         elif st == 'FAILURE':
             fails.append(r)
         elif st not in ('SUCCESS',):
